@@ -108,8 +108,9 @@ type c20Group struct {
 
 type c20File struct {
 	Path   string     `json:"path"`
-	Indent int        `json:"indent"` // 0: "- name" at column 0, 2: indented sequences
-	Header bool       `json:"header"` // comment line at the top
+	Indent int        `json:"indent"`           // 0: "- name" at column 0, 2: indented sequences
+	Header bool       `json:"header"`           // comment line at the top
+	Broken bool       `json:"broken,omitempty"` // HEAD only: the last group also holds a bystander rule with a rule-level error
 	Groups []c20Group `json:"groups"`
 }
 
@@ -241,9 +242,20 @@ func (f c20File) render() (string, []c20Place) {
 	gk := gi + "  "                          // keys of the group
 	ri := gk + strings.Repeat(" ", f.Indent) // indentation of "- record"
 	rk := ri + "  "
-	for _, g := range f.Groups {
+	// the bystander: parses as YAML, is no rule pint can use (unknown key), is named like nothing else and uses nothing
+	broken := func() {
+		add(ri + "- record: zz:bystander")
+		add(rk + "expr: vector(1)")
+		add(rk + "bogus_key: 1")
+	}
+	for gn, g := range f.Groups {
 		add(gi + "- name: " + g.Name)
 		if len(g.Rules) == 0 {
+			if f.Broken && gn == len(f.Groups)-1 {
+				add(gk + "rules:")
+				broken()
+				continue
+			}
 			add(gk + "rules: []")
 			continue
 		}
@@ -301,6 +313,9 @@ func (f c20File) render() (string, []c20Place) {
 			} else {
 				places[i].ExtLast = len(lines)
 			}
+		}
+		if f.Broken && gn == len(f.Groups)-1 {
+			broken()
 		}
 	}
 	return strings.Join(lines, "\n") + "\n", places
@@ -718,8 +733,8 @@ func c20GenCase(rnd *rand.Rand, mode int) c20Case {
 	}
 	applyOp := func(s c20Snapshot) c20Snapshot {
 		op := c20Weighted(rnd,
-			[]string{"del-rule", "del-all-named", "del-file", "rename-rule", "move-rule", "del-with-dependants", "del-and-replace", "git-rename-file", "kind-swap", "drop-dependency", "add-dependant", "touch", "empty-file", "reorder"},
-			[]int{35, 8, 10, 10, 8, 6, 6, 6, 5, 5, 4, 4, 3, 3})
+			[]string{"del-rule", "del-all-named", "del-file", "rename-rule", "move-rule", "del-with-dependants", "del-and-replace", "git-rename-file", "kind-swap", "drop-dependency", "add-dependant", "touch", "empty-file", "reorder", "del-rule-next-to-broken-rule"},
+			[]int{35, 8, 10, 10, 8, 6, 6, 6, 5, 5, 4, 4, 3, 3, 8})
 		x, ok := pickProvider(s)
 		if !ok {
 			return s
@@ -727,6 +742,20 @@ func c20GenCase(rnd *rand.Rand, mode int) c20Case {
 		note := op
 		switch op {
 		case "del-rule":
+			s.removeIDs(map[int]bool{x.ID: true})
+			note += fmt.Sprintf(" %s %q", x.Kind, x.Name)
+		case "del-rule-next-to-broken-rule":
+			// the file the rule is removed from also gains a rule pint cannot parse (the file itself stays readable)
+			for fi := range s {
+				for _, gr := range s[fi].Groups {
+					for _, r := range gr.Rules {
+						if r.ID == x.ID {
+							s[fi].Broken = true
+							note += " in " + s[fi].Path
+						}
+					}
+				}
+			}
 			s.removeIDs(map[int]bool{x.ID: true})
 			note += fmt.Sprintf(" %s %q", x.Kind, x.Name)
 		case "del-all-named":
